@@ -10,14 +10,20 @@ CONSTANT OverlapReadLoses   \* named deviation of the implementation (known find
                             \* one wait address the same element, only one of them receives it.
                             \* FALSE = the property (reads may overlap each other freely)
 
-VARIABLES l, indep         \* position in the trace; the file is in independent data mode
+VARIABLES l, indep,        \* position in the trace; the file is in independent data mode
+          hdr              \* digest of the header bytes (record-count field excluded) last seen; "none" before
 Tr == ndJsonDeserialize(IOEnv.TRACE)
-tvars == <<vars, l, indep>>
+tvars == <<vars, l, indep, hdr>>
 
 TraceVarTab == Tr[1].vars
 
 (* diagnostics: which conjunct rejected the event at position l (printed only on failure) *)
 Chk(name, c) == IF c THEN TRUE ELSE (PrintT(<<"FAILED", name, l>>) /\ FALSE)
+(* C15: no data-access call, accepted or rejected, changes a byte of the header *)
+HdrStep(ev) == IF "hdrsha" \in DOMAIN ev.obs
+                 THEN Chk("header unchanged", hdr = "none" \/ ev.obs.hdrsha = hdr) /\ hdr' = ev.obs.hdrsha
+                 ELSE hdr' = hdr
+
 OnesFor(v) == Ones(Rank(v))
 Zeros(v) == AsSeq([i \in 1..Rank(v) |-> 0])
 Whole(v) == AsSeq([i \in 1..Rank(v) |-> IF i = 1 /\ IsRec(v) THEN numrecs ELSE Shape(v)[i]])
@@ -64,12 +70,12 @@ TReset ==
     /\ Tr[l].e \in {"Reset", "Header"}
     /\ data' = AsSeq([v \in 1..NV |-> AsSeq([i \in 1..Cap(v - 1) |-> U])])
     /\ numrecs' = 0 /\ Q' = <<>> /\ abuf' = [size |-> -1, used |-> 0] /\ slots' = <<>> /\ hist' = <<>>
-    /\ indep' = FALSE /\ l' = l + 1
+    /\ indep' = FALSE /\ hdr' = "none" /\ l' = l + 1
 
 TSetup ==
     /\ Tr[l].e \notin {"Reset", "Header"} /\ "setup" \in DOMAIN Tr[l].a
     /\ Tr[l].rc = "NC_NOERR"
-    /\ l' = l + 1 /\ UNCHANGED <<vars, indep>>
+    /\ l' = l + 1 /\ UNCHANGED <<vars, indep, hdr>>
 
 TModeSwitch ==
     /\ Tr[l].e \in {"begin_indep", "end_indep"} /\ "setup" \notin DOMAIN Tr[l].a
@@ -77,6 +83,7 @@ TModeSwitch ==
     /\ indep' = (Tr[l].e = "begin_indep")
     /\ UNCHANGED vars
     /\ ObsOK(Tr[l])
+    /\ HdrStep(Tr[l])
     /\ l' = l + 1
 
 (* close and reopen: nothing the model tracks changes; the file comes back in collective data mode *)
@@ -86,6 +93,7 @@ TReopen ==
     /\ indep' = FALSE
     /\ UNCHANGED vars
     /\ ObsOK(Tr[l])
+    /\ HdrStep(Tr[l])
     /\ l' = l + 1
 
 TAccess ==
@@ -98,11 +106,16 @@ TAccess ==
               [] k = "blocking" /\ ev.e = "get" ->
                     /\ BGet(r, ev.rc)
                     /\ Chk("guard", ev.out.guard)                                  \* nothing outside the selected elements
-                    /\ Chk("get.buf", ev.rc = "NC_NOERR" => MatchSeq(BGetExpect(r), ev.out.buf))
+                    /\ Chk("get.buf", ev.rc = "NC_NOERR" =>
+                           LET exp == BGetExpect(r)  el == Elems(r) IN
+                           /\ Len(exp) = Len(ev.out.buf)
+                           /\ \A i \in 1..Len(exp) : Match(exp[i], ev.out.buf[i])
+                                  \/ (OverlapReadLoses /\ \E j \in 1..Len(el) : j # i /\ el[j] = el[i]))
               [] OTHER ->
                     /\ Post(k, a.req, r, IF k = "iget" THEN <<>> ELSE a.vals, ev.rc)
                     /\ Chk("post.id", (ev.rc = "NC_NOERR") => (ev.out.isnull = (Len(Elems(r)) = 0)))
          /\ ObsOK(ev)
+    /\ HdrStep(Tr[l])
     /\ l' = l + 1
 
 (* labels named by a wait/cancel event *)
@@ -137,6 +150,7 @@ TWait ==
                                /\ \A k \in 1..Len(exp) : Match(exp[k], got[k]) \/ (OverlapReadLoses /\ el[k] \in others)
                  ELSE ev.out.bufsame[sel[i].lab])
          /\ ObsOK(ev)
+    /\ HdrStep(Tr[l])
     /\ l' = l + 1
 
 TBuffer ==
@@ -144,10 +158,11 @@ TBuffer ==
     /\ UNCHANGED indep
     /\ IF Tr[l].e = "buffer_attach" THEN Attach(Tr[l].a.size, Tr[l].rc) ELSE Detach(Tr[l].rc)
     /\ ObsOK(Tr[l])
+    /\ HdrStep(Tr[l])
     /\ l' = l + 1
 
 TNext == l <= Len(Tr) /\ (TReset \/ TSetup \/ TReopen \/ TModeSwitch \/ TAccess \/ TWait \/ TBuffer)
-TInit == l = 1 /\ indep = FALSE /\ Init
+TInit == l = 1 /\ indep = FALSE /\ hdr = "none" /\ Init
 TraceSpec == TInit /\ [][TNext]_tvars
 
 TraceAccepted ==
